@@ -283,7 +283,8 @@ where
     let known = Known::load();
     let mut report = WorkerReport::default();
     // regression replays first (worker 0 only)
-    if args.worker == 0 {
+    let lead = args.worker == 0 || std::env::var("VERIF_PLAIN_LEAD").is_ok();
+    if lead {
         let dir = format!("{}/replays/regress/{}", VERIF, def.id);
         if let Ok(rd) = std::fs::read_dir(&dir) {
             let mut files: Vec<_> = rd.filter_map(|e| e.ok()).map(|e| e.path()).collect();
@@ -310,7 +311,7 @@ where
         }
     }
     if let Some(extra) = def.extra {
-        if args.worker == 0 {
+        if lead {
             extra(def, args, &mut report);
             if report.violation.is_some() {
                 return report;
@@ -465,6 +466,30 @@ pub fn check_main(def: &PropDef, tier: Tier) -> i32 {
             }
         }
     }
+    // one more worker on the build users ship (profile `plain`: no debug assertions, no overflow
+    // checks), if the check script built it: it repeats worker 0's fixed work (regression
+    // replays, enumerated tables, anchors, stresses) and runs generated cases of its own
+    let plain_exe = exe.parent().and_then(|d| d.parent()).map(|d| d.join("plain").join("sigverif"));
+    let mut plain_workers = 0u32;
+    if let Some(pe) = plain_exe.filter(|p| p.exists() && std::env::var("VERIF_NO_PLAIN").is_err()) {
+        let w = workers;
+        let out = format!("{}/w{}.json", work, w);
+        let child = std::process::Command::new(&pe)
+            .args(["worker", def.id, tier.name(), &seed.to_string(), &w.to_string(), &(workers + 1).to_string(), &cases.to_string(), &out])
+            .env("VERIF_PLAIN_LEAD", "1")
+            .stdin(std::process::Stdio::null())
+            .spawn();
+        match child {
+            Ok(c) => {
+                children.push((w, c, out));
+                plain_workers = 1;
+            }
+            Err(e) => {
+                eprintln!("cannot spawn the plain-profile worker: {}", e);
+                return 2;
+            }
+        }
+    }
     let mut merged = WorkerReport::default();
     let mut infra_fail: Vec<String> = Vec::new();
     let mut first_violation: Option<(u32, String, String, Value)> = None;
@@ -528,6 +553,7 @@ pub fn check_main(def: &PropDef, tier: Tier) -> i32 {
             "samples": samples,
             "exhaustive": merged.exhaustive,
             "workers": workers,
+            "workers_on_the_build_without_debug_assertions_and_overflow_checks": plain_workers,
             "cases_per_worker": cases,
             "nontrivial_total": merged.nontrivial_total,
             "nontrivial_fraction": frac,
@@ -555,7 +581,8 @@ pub fn check_main(def: &PropDef, tier: Tier) -> i32 {
         let path = format!("{}/replays/{}-seed{}-w{}.json", out_dir(), def.id, seed, w);
         write_json(
             &path,
-            &json!({"property": def.id, "seed": seed, "worker": w, "tier": tier.name(), "key": key, "msg": msg, "case": case}),
+            &json!({"property": def.id, "seed": seed, "worker": w, "tier": tier.name(), "key": key, "msg": msg, "case": case,
+                "build": if plain_workers > 0 && w == workers { "profile plain (no debug assertions, no overflow checks)" } else { "profile release of the harness (debug assertions and overflow checks on)" }}),
         );
         println!("violation key={} msg={}", key, msg);
         println!("VIOLATION property={} replay={}", def.id, path);
